@@ -401,8 +401,13 @@ def main(argv=None):
         'wall_s': round(wall, 2),
         'violations': len(by_sig),
     }
-    os.makedirs(os.path.join(ROOT, 'evidence'), exist_ok=True)
-    with open(os.path.join(ROOT, 'evidence', prop_id + '.json'), 'w') as f:
+    # evidence describes /repo itself; a run against another tree (VERIF_REPO,
+    # used by the sensitivity tools) must not overwrite it
+    alt = os.environ.get('VERIF_REPO')
+    edir = os.path.join(ROOT, 'evidence') if not alt or os.path.realpath(alt) == '/repo' \
+        else os.path.join(ROOT, '.scratch', 'evidence_other_tree')
+    os.makedirs(edir, exist_ok=True)
+    with open(os.path.join(edir, prop_id + '.json'), 'w') as f:
         json.dump(evidence, f, indent=1, default=repr, sort_keys=False)
         f.write('\n')
 
